@@ -25,7 +25,8 @@ RULE = ("seeded random qiskit circuits (1-4 qubits, 1-10 gates over h,x,y,z,s,sd
         "flag); non-trivial = at least one multi-qubit gate")
 MANDATORY = ["three_qubit_then_two_qubit_on_two_of_its_qubits", "nonadjacent_cx_reversed", "two_heralded_cascaded",
              "post_selection_rules_returned", "refusal_recorded", "allow_ps_true", "allow_ps_false", "swap_gate",
-             "converter_object_reused", "two_qubit_gate_distance_ge4", "gate_then_swaps_carry_qubits_away"]
+             "converter_object_reused", "two_qubit_gate_distance_ge4", "gate_then_swaps_carry_qubits_away",
+             "rotation_angle_near_special_value"]
 DECIDING = ["mon.converter_postconditions"]
 BUDGET = {"quick": 35, "thorough": 540}
 ASSUMPTIONS = ["qiskit.quantum_info.Operator (little-endian) is the reference unitary", "conversions whose photonic "
@@ -117,11 +118,18 @@ def classify(names, allow_ps):
     return "other"
 
 
+ROT_NEAR = [0]
 ONE = ["h", "x", "y", "z", "s", "sdg", "t", "tdg", "sx"]
 ROT = ["rx", "ry", "rz", "p"]
 
 
 def angle(rng):
+    r = rng.random()
+    if r < 0.25:
+        # a small but non-zero offset from a multiple of pi/2 (in particular from a whole number of turns)
+        k = int(rng.integers(-8, 9))
+        delta = float(rng.choice([1e-3, 2e-5, 1e-6, 1e-7, -2e-5, -1e-3]))
+        return k * math.pi / 2 + delta
     return float(rng.choice([0.0, math.pi, 2 * math.pi, -math.pi / 2, math.pi / 4, rng.uniform(-7, 7), rng.uniform(-7, 7)]))
 
 
@@ -136,6 +144,8 @@ def add_random_gate(qc, rng, n, log, allow3=True, max_multi=None, counter=None):
         g = str(rng.choice(ONE)); q = int(rng.integers(n)); getattr(qc, g)(q); log.append([g, q])
     elif kind == "rot":
         g = str(rng.choice(ROT)); q = int(rng.integers(n)); th = angle(rng); getattr(qc, g)(th, q); log.append([g, th, q])
+        if abs(th / (math.pi / 2) - round(th / (math.pi / 2))) < 1e-3 and th != 0 and abs(th - round(th / (math.pi / 2)) * math.pi / 2) > 0:
+            ROT_NEAR[0] += 1
     elif kind == "two":
         g = str(rng.choice(["cx", "cz"])); a, b = [int(x) for x in rng.choice(n, size=2, replace=False)]
         getattr(qc, g)(a, b); log.append([g, a, b]); counter[0] += 1
@@ -265,6 +275,9 @@ def run(ctx):
             allow = bool(rng.random() < 0.5)
         if any(g[0] == "swap" for g in log):
             ctx.bucket("swap_gate")
+        if ROT_NEAR[0]:
+            ctx.bucket("rotation_angle_near_special_value", ROT_NEAR[0])
+            ROT_NEAR[0] = 0
         ctx.bucket("allow_ps_true" if allow else "allow_ps_false")
         case = {"qubits": n, "gates": log, "allow_post_selection": allow}
         try:
